@@ -23,7 +23,7 @@ meta = {
      "demo_exit_with_patch": confirm.get("demo_exit_with_patch"),
      "demo_exit_without_patch": confirm.get("demo_exit_without_patch"),
   },
-  "check_result": {"applied_to": "/repo (git apply, reverted afterwards)", "command": cmd, "detected": detected == "yes", "observed": observed},
+  "check_result": {"applied_to": os.environ.get("APPLIED_TO", "/repo (git apply, reverted afterwards)"), "command": cmd, "detected": detected == "yes", "observed": observed},
 }
 json.dump(meta, open(f"{d}/meta.json", "w"), indent=1)
 print("wrote", f"{d}/meta.json")
